@@ -275,9 +275,12 @@ fn receive_acks(
 fn buffer_despawns(
     trigger: Trigger<OnRemove, Replicated>,
     mut despawn_buffer: ResMut<DespawnBuffer>,
+    mut removal_buffer: ResMut<RemovalBuffer>,
     server: Res<RepliconServer>,
 ) {
     if server.is_running() {
+        // Removals buffered in previous frames are superseded by the despawn.
+        removal_buffer.remove_entity(trigger.target());
         despawn_buffer.push(trigger.target());
     }
 }
